@@ -43,6 +43,12 @@ class Ctx:
         self.twins_unknown = 0
         self.notes = []
         self.bounds = {}
+        self.shadows = []          # (name, replay, sampler, key): concrete fall-back when the job cannot be executed symbolically
+
+    def shadow(self, name, replay, sampler, key=None):
+        """register a concrete shadow: if symbolic execution of this job aborts (not encodable), the replay oracle is run on
+        sampler(rng) inputs; a reproduced violation is reported (marked as found by the concrete shadow, not by the solver)."""
+        self.shadows.append((name, replay, sampler, key))
 
     # -- bookkeeping
     def encoded(self, *objs):
@@ -234,6 +240,22 @@ def _run_job(job):
         job.fn(ctx, *job.args, **job.kw)
     except (HarnessError, NotEncodable) as ex:
         err = f"{type(ex).__name__}: {ex}"
+        import random
+        rng = random.Random(seed() * 7919 + 17)
+        for name, replay, sampler, key in ctx.shadows:
+            for _ in range(24):
+                m = sampler(rng)
+                try:
+                    bad, info = replay(m)
+                except Exception:
+                    continue
+                if bad:
+                    rec = ctx._rec(name + "  [concrete shadow: symbolic execution aborted with " + err[:80] + "]", "sat", 0.0, "shadow", key=key)
+                    rec.update(model={k: str(v) for k, v in m.items()}, replayed=True, replay_info=_jsonable(info))
+                    err = None
+                    break
+            if err is None:
+                break
     except sym.PathAbort:
         err = "PathAbort escaped"
     except Exception as ex:
